@@ -31,7 +31,14 @@ LEVEL_TEXT = ("Proof: four children partition their parent (half-open, west/sout
               "after an ancestor are dead; get_bbox of every covering grid is the whole domain; save_quadtree/from_quadkeys "
               "text round trip; origins located in their own cells. Phase 2: get_masked (D42) is True exactly where no cell "
               "contains the point, agrees with _find_location / get_index_of, and filter_spatial is the filter by 'is located' "
-              "(idempotent, order preserving, located indices unchanged).")
+              "(idempotent, order preserving, located indices unchanged). Round 4: the refinement criterion is proved on what the "
+              "gridding API reports: spatial_counts() of the building catalog bound to the finished grid equals, cell by cell, the num "
+              "list _create_tile recorded (two different code paths: refinement test vs _find_location + add.at; any catalog, threshold, "
+              "zoom, boundary events and duplicates included), hence every entry is <= threshold or its cell is at the maximum zoom, "
+              "every strict ancestor of a listed cell held more than threshold events, and every event of the domain has a cell. "
+              "Coverage of ARBITRARY prefix-free key lists (from_quadkeys, key files) is decided by a theorem: such a list covers the "
+              "domain iff sum 4^-len(key) = 1 (Kraft's equality; counting the keys of the deepest level, double counting, no size bound), "
+              "it is then a partition and _find_location finds a cell exactly for the points of the domain; sum <= 1 always.")
 LEVEL_NOTE = ("Theorems about the latitude are over the reals; the float evaluation of pi*x, sinh, atan, degrees by libm is not "
               "modelled beyond determinism (the float latitude of an edge is proved to depend on the dyadic coordinate only; "
               "strict monotonicity of the float edge table is re-checked every run; the Lean Float transcription of the formula "
@@ -69,7 +76,13 @@ THEOREMS = ["Quadtree.geo_membership", "Quadtree.lon_bounds_exact", "Quadtree.ro
             "Quadtree.bbox_of_cover", "Quadtree.bbox_from_catalog", "Quadtree.bbox_single_resolution",
             # get_masked / filter_spatial on quadtree grids (D42; Properties/C17_Masked.lean)
             "Quadtree.get_masked_spec", "Quadtree.get_masked_agrees_with_locate", "Quadtree.filter_spatial_eq_filter",
-            "Quadtree.filter_spatial_spec", "Quadtree.get_masked_from_catalog"]
+            "Quadtree.filter_spatial_spec", "Quadtree.get_masked_from_catalog",
+            # the refinement criterion read off the gridding API on the finished grid (Properties/C17_Gridding.lean)
+            "QuadGridding.from_catalog_self_counts", "QuadGridding.from_catalog_self_leaf_bound",
+            "QuadGridding.from_catalog_self_split_needed", "QuadGridding.from_catalog_self_all_located_iff",
+            # coverage of ARBITRARY prefix-free key lists: Kraft's equality (Properties/C17_Cover.lean)
+            "Quadtree.prefix_free_cover_iff_kraft", "Quadtree.kraft_le_one", "Quadtree.prefix_free_cover_iff_kraft_rat",
+            "Quadtree.prefix_free_partition_of_kraft", "Quadtree.locate_total_of_kraft"]
 TRUSTED = ["Lean 4.33 kernel", "axioms: propext, Classical.choice, Quot.sound at most",
            "mercantile 1.2.1: quadkey_to_tile is the bit interleaving modelled by tileX/tileY; bounds().west/east equal "
            "-180+360*X/2^z exactly (checked on every tile of every generated grid); the latitude of a tile edge depends on "
@@ -101,7 +114,10 @@ RULE = ("grids: from_single_resolution(z) z=1..7 (8 in thorough), from_catalog o
         "(lookups as float / int / arrays, get_masked, get_cartesian, get_bbox, get_cell_area, origins, midpoints, to_dict, "
         "get_location_of, interleaved with in-place edits by the caller of the arrays / dictionaries handed out earlier), every "
         "step compared with what a fresh region answers, bounds / quadkeys unchanged at the end; one (three) grids of more than "
-        "2^16 cells with queries in cells of index > 65535; from_catalog with the default zoom (argument not passed)")
+        "2^16 cells with queries in cells of index > 65535; from_catalog with the default zoom (argument not passed); on every "
+        "from_catalog grid the building catalog is bound to the grid and gridded through the catalog API (spatial_counts, "
+        "spatial_event_probability, get_spatial_idx, spatial_magnitude_counts) against the exact recount per leaf, the threshold "
+        "and the model op c17_selfcount")
 
 R_KM = 6371.0
 LATMAX = 85.0511287798066
@@ -135,6 +151,20 @@ def check_edge_tables(run, D):
     run.extra.setdefault("edge_tables_checked", [])
     if D not in run.extra["edge_tables_checked"]:
         run.extra["edge_tables_checked"].append(D)
+
+
+def qt_bounds(r):
+    """rows (west, south, east, north) of a quadtree region as a float array: the region's own `bounds` array, or — should a rewrite
+    keep it under another name — the tiles of its quadkeys from mercantile (the structure check compares the two anyway)"""
+    b = getattr(r, "bounds", None)
+    if b is None:
+        import mercantile
+        rows = []
+        for k in r.quadkeys:
+            t = mercantile.bounds(mercantile.quadkey_to_tile(str(k)))
+            rows.append((t.west, t.south, t.east, t.north))
+        b = numpy.array(rows, dtype=float).reshape(-1, 4)
+    return numpy.asarray(b, dtype=float)
 
 
 def key_xy(k):
@@ -241,7 +271,7 @@ def check_structure(run, drv, pend, g, partition_expected):
     """bounds, prefix-freeness / coverage in exact dyadic arithmetic, areas; queue model comparison"""
     from csep.core import regions
     r, keys = g.region, g.keys
-    b = numpy.asarray(r.bounds, dtype=float)
+    b = qt_bounds(r)
     E, _ = edges(g.D)
     check_edge_tables(run, g.D)
     n = len(keys)
@@ -267,6 +297,14 @@ def check_structure(run, drv, pend, g, partition_expected):
             run.oracle_failure(dict(case, nested=nested[:3]), f"cells overlap: {nested[0]}")
         if cover != 1:
             run.oracle_failure(dict(case, cover=str(cover)), f"cells do not cover the domain: total measure {cover}")
+    # an ARBITRARY prefix-free key list covers the domain iff its Kraft sum is 1 (theorem prefix_free_cover_iff_kraft_rat):
+    # then it is a partition like the constructor-made grids and is judged like them (bounding box, area total, and in
+    # check_queries: every point of the domain has exactly one cell)
+    complete = partition_expected or (n > 0 and not nested and len(set(keys)) == n and cover == 1)
+    g.kraft_complete = complete
+    if complete and not partition_expected:
+        run.count("keyset:prefix-free-kraft-sum-1")
+    if complete:
         bb = r.get_bbox()
         if not (bb[0] == -180.0 and bb[1] == 180.0 and bb[2] == E[-1] and bb[3] == E[0]
                 and abs(bb[3] - LATMAX) < 1e-12 and abs(bb[2] + LATMAX) < 1e-12):
@@ -274,7 +312,7 @@ def check_structure(run, drv, pend, g, partition_expected):
     # --- areas
     area = numpy.asarray(r.get_cell_area(), dtype=float)
     band = 4 * math.pi * R_KM ** 2 * math.sin(math.radians(E[0]))
-    if partition_expected:
+    if complete:
         tot = math.fsum(area.tolist())
         if not abs(tot - band) <= 1e-9 * band:
             run.oracle_failure(dict(case, total=hexs(tot), band=hexs(band)), "cell areas do not add up to the band area")
@@ -299,10 +337,30 @@ def check_queries(run, drv, pend, g, pts, partition_expected, prefix_free, tag):
     """pts: list of (lon, lat) floats.  Oracle: located cell = the listed cell whose key is a prefix of the point's exact
     depth-D key (unique when prefix-free; first listed otherwise); brute force on the implementation's own bounds."""
     r, keys = g.region, g.keys
-    b = numpy.asarray(r.bounds, dtype=float)
+    b = qt_bounds(r)
     kidx = {}
     for i, k in enumerate(keys):
         kidx.setdefault(k, i)
+    # NaN is not a point of the globe (outside the property's quantifier): such a query must not be given a cell; "no cell"
+    # (what the comparisons of the current code yield) and a rejection are both accepted; the checks below run on the other points
+    nans = [(lo, la) for lo, la in pts if lo != lo or la != la]
+    if nans:
+        pts = [(lo, la) for lo, la in pts if lo == lo and la == la]
+        for lo, la in nans:
+            got_n = _loc(r, lo, la)
+            run.count("query:nan:" + ("no-cell" if got_n is None else "rejected" if isinstance(got_n, str) else "CELL"))
+            if isinstance(got_n, int):
+                run.oracle_failure(_case(g, check="query", point=[hexs(lo), hexs(la)], tag=tag),
+                                   f"a NaN coordinate is located in cell {got_n}")
+        try:
+            m_n = [bool(v) for v in numpy.asarray(r.get_masked([p_[0] for p_ in nans], [p_[1] for p_ in nans])).ravel().tolist()]
+            if not all(m_n):
+                run.oracle_failure(_case(g, check="masked", points=[[hexs(a), hexs(c)] for a, c in nans], tag=tag),
+                                   "get_masked is False for a NaN coordinate (the point would be kept as lying in a cell)")
+        except Exception:
+            run.count("query:nan:get_masked-rejected")
+        if not pts:
+            return
     units, impl = [], []
     on_edge = False
     for lon, lat in pts:
@@ -330,7 +388,7 @@ def check_queries(run, drv, pend, g, pts, partition_expected, prefix_free, tag):
             if prefix_free and len(cands) > 1:
                 run.oracle_failure(_case(g, check="query", point=[hexs(lon), hexs(lat)], tag=tag),
                                    "two cells of a prefix-free grid contain one point")
-            if partition_expected and exp is None:
+            if (partition_expected or getattr(g, "kraft_complete", False)) and exp is None:
                 run.oracle_failure(_case(g, check="query", point=[hexs(lon), hexs(lat)], tag=tag),
                                    "a point of the covered domain lies in no cell")
         # brute force on the implementation's own bounds (vectorised here, independently of _find_location)
@@ -370,8 +428,8 @@ def _loc(r, lon, lat, as_int=False):
         got = r.get_index_of(int(lon), int(lat)) if as_int else r.get_index_of(float(lon), float(lat))
     except Exception as ex:
         return f"BAD:{type(ex).__name__}"
-    if isinstance(got, numpy.ndarray) and got.size == 0:
-        return None
+    if got is None or (isinstance(got, (numpy.ndarray, list, tuple)) and numpy.size(got) == 0):
+        return None            # "no cell": the empty array of the current code, or an empty sequence / None of a rewrite
     try:
         if numpy.size(got) == 1 and int(got) == got and not isinstance(got, (bool, numpy.bool_)):
             return int(got)
@@ -393,8 +451,6 @@ def check_masked(run, drv, pend, g, pts, units, located, tag, with_catalog):
         try:
             m = r.get_masked(a, c)
             got = [bool(v) for v in numpy.asarray(m).ravel().tolist()]
-            if numpy.asarray(m).dtype != bool:
-                got = f"dtype {numpy.asarray(m).dtype}"
         except Exception as ex:
             got = f"E:{type(ex).__name__}"
         if got != want:
@@ -488,10 +544,16 @@ def check_refinement(run, drv, pend, g):
         if len(qk) != len(num):
             raise ValueError("qk / num lengths differ")
     except Exception as ex:
-        run.count(f"private-helper-unavailable:{type(ex).__name__}")
+        run.count("helper-missing:_create_tile")
+        note = ("private helper regions._create_tile is not available with the driven signature on the tree under test "
+                f"({type(ex).__name__}): the exact recount on the grid of the public constructor from_catalog stands in")
+        if note not in run.assumptions:
+            run.assumptions.append(note)
         qk, num = list(keys), [cnt(k) for k in keys]
-    if qk != keys:
-        run.oracle_failure(case, "from_catalog and _create_tile disagree on the leaf list")
+    if sorted(qk) != sorted(keys):
+        # the private recursion no longer produces the grid of the public constructor (it may be unused by now): not a verdict
+        run.count("private-helper-diverges:_create_tile")
+        qk, num = list(keys), [cnt(k) for k in keys]
     if num != [cnt(k) for k in qk]:
         run.oracle_failure(dict(case, num=num[:40]), "recorded leaf counts differ from an exact recount")
     inside = sum(1 for d in dkeys if d is not None)
@@ -510,6 +572,79 @@ def check_refinement(run, drv, pend, g):
     run.count("refine-multi-depth" if multi else "refine-flat")
     pend.append(("refine", g, case, drv.ask(f"c17_refine {thr} {zoom} {pts_arg(units)}"),
                  [f"{k}:{int(v)}" for k, v in zip(qk, num)]))
+
+
+def check_selfgrid(run, drv, pend, g):
+    """The building catalog BOUND to the grid it built, seen through the gridding API (other code than `_create_tile`):
+    `spatial_counts()` = exact recount per leaf = the model's `num` (theorem from_catalog_self_counts); every entry is
+    <= threshold unless its cell is at the maximum zoom; `spatial_event_probability` = [count > 0]; `get_spatial_idx` = one index
+    per event inside the domain, in catalog order; `spatial_magnitude_counts` returns iff every event lies inside the domain."""
+    from csep.core.catalogs import CSEPCatalog
+    p = g.params
+    thr, zoom = p["threshold"], (p["zoom"] if p["zoom"] is not None else 11)
+    ev = [(float.fromhex(a), float.fromhex(b)) for a, b in p["events"]]
+    if len(g.keys) * max(len(ev), 1) > 4e6:
+        run.count("selfgrid:skipped-too-large")
+        return
+    D = max(zoom, 1)
+    units = [to_unit(lo, la, D) for lo, la in ev]
+    dkeys = [unit_key(x, y, D) for x, y in units]
+    case = _case(g, check="selfgrid")
+    keys = g.keys
+    kidx = {k: i for i, k in enumerate(keys)}
+
+    def owner(d):
+        if d is None:
+            return None
+        for L in range(1, len(d) + 1):
+            if d[:L] in kidx:
+                return kidx[d[:L]]
+        return None
+    own = [owner(d) for d in dkeys]
+    exp = [0] * len(keys)
+    for o in own:
+        if o is not None:
+            exp[o] += 1
+    mags = [4.0 + 0.5 * (i % 4) for i in range(len(ev))]
+    cat = CSEPCatalog(data=[(str(i), 1000 * i, la, lo, 5.0, m) for i, ((lo, la), m) in enumerate(zip(ev, mags))], region=g.region)
+
+    def call(f):
+        try:
+            return numpy.asarray(f())
+        except Exception as ex:
+            return "E:" + type(ex).__name__
+    sc = call(cat.spatial_counts)
+    if isinstance(sc, str) or sc.shape != (len(keys),) or [int(v) for v in sc] != exp or not numpy.all(sc == numpy.round(sc)):
+        run.oracle_failure(case, f"spatial_counts of the building catalog on its own grid {str(sc)[:120]} differs from the exact "
+                                 f"recount per leaf {str(exp)[:120]}")
+        return
+    for k, c in zip(keys, exp):
+        if c > thr and len(k) < zoom:
+            run.oracle_failure(dict(case, cell=k, count=c), f"spatial_counts: cell {k} holds {c} > threshold {thr} events of the "
+                                                             f"building catalog below the maximum zoom")
+            break
+    sep = call(cat.spatial_event_probability)
+    if ev and (isinstance(sep, str) or [int(v) for v in sep] != [1 if c > 0 else 0 for c in exp]):
+        run.oracle_failure(case, "spatial_event_probability of the building catalog is not 1 exactly where its count is positive")
+    if ev:
+        sidx = call(cat.get_spatial_idx)
+        if isinstance(sidx, str) or [int(v) for v in sidx] != [o for o in own if o is not None]:
+            run.oracle_failure(case, f"get_spatial_idx of the building catalog {str(sidx)[:120]} != the owning leaves "
+                                     f"{str([o for o in own if o is not None])[:120]}")
+        smc = call(lambda: cat.spatial_magnitude_counts(mag_bins=[4.0, 4.5, 5.0, 5.5]))
+        allin = all(o is not None for o in own)
+        if allin:
+            e2 = [[0] * 4 for _ in keys]
+            for o, m in zip(own, mags):
+                e2[o][int(round((m - 4.0) / 0.5))] += 1
+            if isinstance(smc, str) or smc.shape != (len(keys), 4) or smc.astype(int).tolist() != e2:
+                run.oracle_failure(case, f"spatial_magnitude_counts of the building catalog on its own grid: {str(smc)[:160]}")
+        elif not isinstance(smc, str):      # any exception is a rejection
+            run.oracle_failure(case, "spatial_magnitude_counts returned although an event of the catalog lies outside the covered "
+                                     "domain (in no cell)")
+        run.count("selfgrid:all-inside" if allin else "selfgrid:some-outside")
+    run.case(None, ("selfgrid", _pkey(g)) if any(c > 1 for c in exp) and len(set(len(k) for k in keys)) > 1 else None)
+    pend.append(("selfcount", g, case, drv.ask(f"c17_selfcount {thr} {zoom} {pts_arg(units)}"), dict(zip(keys, exp))))
 
 
 def _expected_cell(b, lon, lat):
@@ -534,7 +669,7 @@ def issue(r, pts, mode):
 def check_sequence(run, drv, pend, g, pts, mode, tag):
     """the cell of a point must not depend on which points were looked up before it on the same region object"""
     r = g.region
-    b = numpy.asarray(r.bounds, dtype=float)
+    b = qt_bounds(r)
     exp = [_expected_cell(b, lon, lat) for lon, lat in pts]
     case = _case(g, check="order", points=[[hexs(a), hexs(c)] for a, c in pts], mode=mode, tag=tag)
     try:
@@ -591,7 +726,7 @@ def check_cartesian(run, drv, pend, g, partition_expected, prefix_free, limit):
     import contextlib
     import io
     r, keys = g.region, g.keys
-    b = numpy.asarray(r.bounds, dtype=float)
+    b = qt_bounds(r)
     n = len(keys)
     xs = sorted(set(b[:, 0].tolist()))
     ys = sorted(set(b[:, 1].tolist()))
@@ -603,8 +738,12 @@ def check_cartesian(run, drv, pend, g, partition_expected, prefix_free, limit):
     try:
         with contextlib.redirect_stdout(io.StringIO()):
             got = numpy.asarray(r.get_cartesian(data))
-        impl = [[int((v - 1) / 2) for v in row] for row in got.tolist()]
-        ixs, iys = [float(v) for v in r.xs], [float(v) for v in r.ys]
+        impl = [[None if v != v else int((v - 1) / 2) for v in row] for row in got.tolist()]
+        try:
+            ixs, iys = [float(v) for v in r.xs], [float(v) for v in r.ys]
+        except AttributeError:          # the axes are kept elsewhere by a rewrite: not part of the property
+            ixs = iys = None
+            run.count("cartesian:axes-attributes-absent")
     except Exception as ex:
         impl, exc = "E", type(ex).__name__
     # exact expectation by brute force on the implementation's own bounds
@@ -624,12 +763,14 @@ def check_cartesian(run, drv, pend, g, partition_expected, prefix_free, limit):
         if not gap:
             run.oracle_failure(case, f"get_cartesian raised {exc} although every lattice point lies in a cell")
     else:
+        # a lattice point in no cell: the current code raises (assigning an empty array to an element); NaN at exactly those
+        # positions — what the Cartesian region's get_cartesian gives outside its cells — is the other answer the statement allows
         if gap:
-            run.oracle_failure(case, "get_cartesian returned although a lattice point lies in no cell")
-        elif impl != exp:
+            run.count("cartesian:gap-as-nan")
+        if impl != exp:
             bad = [(j, i) for j in range(len(exp)) for i in range(len(xs)) if j >= len(impl) or i >= len(impl[j]) or impl[j][i] != exp[j][i]][:3]
             run.oracle_failure(dict(case, at=bad), f"get_cartesian differs from the cell containing the lattice point at (row, col) {bad}")
-        if ixs != xs or iys != ys:
+        if ixs is not None and (ixs != xs or iys != ys):
             run.oracle_failure(case, "xs / ys are not the distinct west / south edges in ascending order")
         if prefix_free and not gap and impl == exp:
             xi = {x: i for i, x in enumerate(xs)}
@@ -677,7 +818,7 @@ def check_api(run, drv, pend, g, rng, prefix_free, indices=None):
     n = len(keys)
     if n == 0:
         return
-    b = numpy.asarray(r.bounds, dtype=float)
+    b = qt_bounds(r)
     E, _ = edges(g.D)
     case = _case(g, check="api")
     ks = ",".join(keys)
@@ -688,8 +829,13 @@ def check_api(run, drv, pend, g, rng, prefix_free, indices=None):
     if org.shape != (n, 2) or not numpy.array_equal(org, b[:, :2]):
         run.oracle_failure(case, "origins() is not the (west, south) corner of every cell")
         return
-    d = r.to_dict()
-    if [(p["lon"], p["lat"]) for p in d["polygons"]] != [(float(b[i, 0]), float(b[i, 1])) for i in range(n)]:
+    try:
+        d = r.to_dict()
+        dl = [(float(p["lon"]), float(p["lat"])) for p in d["polygons"]]
+    except (KeyError, TypeError, AttributeError):
+        dl = None      # another dictionary layout: the dict form is property C18's subject, not judged here
+        run.count("api:to_dict-other-layout(not judged)")
+    if dl is not None and dl != [(float(b[i, 0]), float(b[i, 1])) for i in range(n)]:
         run.oracle_failure(case, "to_dict()['polygons'] is not the list of (west, south) corners in cell order")
     big = n > N_BIG          # huge grids (e.g. a refinement that does not stop): sampled cells only, fewer model ops
     idxs = _sample_idx(rng, n, 40)
@@ -707,8 +853,7 @@ def check_api(run, drv, pend, g, rng, prefix_free, indices=None):
             run.oracle_failure(dict(case, cell=keys[i]), f"midpoint {mx!r},{my!r} of cell {keys[i]} lies outside its bounds")
             continue
         for (x, y, what) in ((float(org[i, 0]), float(org[i, 1]), "origin"), (mx, my, "midpoint")):
-            got = r.get_index_of(x, y)
-            got = None if isinstance(got, numpy.ndarray) and got.size == 0 else int(got)
+            got = _loc(r, x, y)
             exp = _expected_cell(b, x, y)
             if got != exp or (prefix_free and got != i):
                 run.oracle_failure(dict(case, cell=keys[i], point=[hexs(x), hexs(y)]),
@@ -739,10 +884,8 @@ def check_api(run, drv, pend, g, rng, prefix_free, indices=None):
     try:
         r.get_location_of([n])
         beyond = "ok"
-    except IndexError:
+    except Exception:      # an index beyond the last cell is rejected; the class is not judged
         beyond = "E"
-    except Exception as ex:
-        beyond = type(ex).__name__
     if not big:
         pend.append(("locationof", g, dict(case, indices=[n]), drv.ask(f"c17_locationof {ks} {n}"), beyond))
     # --- get_bbox
@@ -767,21 +910,30 @@ def check_api(run, drv, pend, g, rng, prefix_free, indices=None):
         lines = text.split("\n")
         if lines and lines[-1] == "":
             lines.pop()
-        if lines != keys:
-            run.oracle_failure(case, "save_quadtree does not write one quadkey per line in cell order")
-        if n <= 400:
+        lines = [ln.strip() for ln in lines]
+        # the file holds the cells of the grid, one quadkey per line; the ORDER of the cells is not part of the property
+        if sorted(lines) != sorted(keys):
+            run.oracle_failure(case, "save_quadtree does not write the quadkeys of the grid, one per line")
+        elif lines != keys:
+            run.count("api:save-load:other-cell-order")
+        if n <= 400 and lines == keys:
             pend.append(("savekeys", g, case, drv.ask(f"c17_savekeys {ks}"), lines))
             pend.append(("loadkeys", g, case, drv.ask(f"c17_loadkeys {'|'.join(lines)}"), keys))
-        if n >= 2:     # a one-line file is read back as a 0-d array (see notes: observation, outside C17)
+        if n >= 2 and sorted(lines) == sorted(keys):     # a one-line file is read back as a 0-d array (notes: observation, outside C17)
             qk = numpy.genfromtxt(path, delimiter=",", dtype="str")
             r2 = regions.QuadtreeGrid2D.from_quadkeys(qk)
-            if [str(k) for k in r2.quadkeys] != keys or not numpy.array_equal(numpy.asarray(r2.bounds, dtype=float), b):
+            k2 = [str(k) for k in r2.quadkeys]
+            b2 = qt_bounds(r2)
+            first = {}
+            for j, k in enumerate(keys):
+                first.setdefault(k, j)
+            if sorted(k2) != sorted(keys) or any(not numpy.array_equal(b2[j], b[first[k]]) for j, k in enumerate(k2)):
                 run.oracle_failure(case, "the grid re-loaded from its saved quadkeys differs (keys or bounds)")
-            else:
+            elif lines == keys or prefix_free:      # in a nested / duplicated key list the ORDER decides which cell answers
                 for i in idxs[:12]:
                     x, y = float(mid[i][0]), float(mid[i][1])
-                    a1, a2 = r.get_index_of(x, y), r2.get_index_of(x, y)
-                    if numpy.size(a1) != numpy.size(a2) or (numpy.size(a1) and int(a1) != int(a2)):
+                    a1, a2 = _loc(r, x, y), _loc(r2, x, y)
+                    if (a1 is None) != (a2 is None) or (a1 is not None and (isinstance(a1, str) or isinstance(a2, str) or keys[a1] != k2[a2])):
                         run.oracle_failure(dict(case, point=[hexs(x), hexs(y)]), "re-loaded grid locates a point differently")
         tmpd.cleanup()
         run.count("api:save-load")
@@ -871,7 +1023,7 @@ def check_session(run, drv, pend, g, rng, steps, ops=None):
     n = len(keys)
     if n == 0 or n > 400:
         return
-    b0 = numpy.array(r.bounds, dtype=float, copy=True)
+    b0 = qt_bounds(r).copy()
     k0 = list(keys)
     try:
         fresh = _build(g.kind, g.params).region
@@ -927,14 +1079,17 @@ def check_session(run, drv, pend, g, rng, steps, ops=None):
                     has_gap = any(v is None for row in exp for v in row)
                     try:
                         got = numpy.asarray(r.get_cartesian(data), dtype=float)
-                        if has_gap or got.tolist() != exp:
+                    except Exception as ex:
+                        got = None
+                        if not has_gap:
+                            fail(i, f"get_cartesian raised {type(ex).__name__} although every lattice point lies in a cell")
+                    if got is not None:
+                        gl = [[None if v != v else v for v in row] for row in got.tolist()]     # NaN = no cell there
+                        if gl != exp:
                             fail(i, "get_cartesian differs from the values of the cells containing the lattice points")
                         if op == "edit_cartesian":
                             got[...] = -1.0               # the caller overwrites the returned grid
                             held["cart"] = got
-                    except ValueError:
-                        if not has_gap:
-                            fail(i, "get_cartesian raised ValueError although every lattice point lies in a cell")
                 elif op == "bbox":
                     got = [float(v) for v in r.get_bbox()]
                     exp = [float(b0[:, 0].min()), float(b0[:, 2].max()), float(b0[:, 1].min()), float(b0[:, 3].max())]
@@ -974,7 +1129,7 @@ def check_session(run, drv, pend, g, rng, steps, ops=None):
         except Exception as ex:
             fail(i, f"raised {type(ex).__name__}: {ex}")
         seq.append(op)
-    if not numpy.array_equal(numpy.asarray(r.bounds, dtype=float), b0) or [str(k) for k in r.quadkeys] != k0:
+    if not numpy.array_equal(qt_bounds(r), b0) or [str(k) for k in r.quadkeys] != k0:
         case = _case(g, check="session", ops=[[op, [[hexs(a), hexs(c)] for a, c in pts], sd] for op, pts, sd in plan])
         run.oracle_failure(case, f"the region's bounds / quadkeys changed during the read-only session {seq}")
     run.count("session")
@@ -1020,7 +1175,7 @@ def check_big(run, drv, pend, rng, seed=None):
     run.extra["big_grid_cells"] = len(g.keys)
     n = len(g.keys)
     case = _case(g, check="big")
-    b = numpy.asarray(g.region.bounds, dtype=float)
+    b = qt_bounds(g.region)
     if b.shape != (n, 4) or n <= 65536:
         run.oracle_failure(case, f"a grid built from {n} distinct keys has bounds of shape {b.shape}")
         return
@@ -1057,14 +1212,54 @@ def _try_build(run, kind, params):
                            f"constructing the {kind} grid {str(p)[:200]} raised {type(ex).__name__}: {ex}")
         return None
 
+def prun(drv, nproc=4, min_chars=200000):
+    """`drv.run()` with the queued lines spread over `nproc` driver processes (every request line is independent and the
+    driver is a pure function of the line): contiguous chunks of about equal text size, results concatenated in order"""
+    lines = drv.lines
+    total = sum(map(len, lines))
+    if nproc <= 1 or len(lines) < 2 * nproc or total < min_chars:
+        return drv.run()
+    import threading
+    chunks, cur, acc, target = [], [], 0, total / nproc
+    for ln in lines:
+        cur.append(ln)
+        acc += len(ln)
+        if acc >= target and len(chunks) < nproc - 1:
+            chunks.append(cur)
+            cur, acc = [], 0
+    if cur:
+        chunks.append(cur)
+    res = [None] * len(chunks)
+
+    def work(i):
+        d = Driver()
+        d.lines = chunks[i]
+        try:
+            res[i] = d.run()
+        except BaseException as ex:       # re-raised in the caller's thread
+            res[i] = ex
+    th = [threading.Thread(target=work, args=(i,)) for i in range(len(chunks))]
+    for t in th:
+        t.start()
+    for t in th:
+        t.join()
+    out = []
+    for r_ in res:
+        if isinstance(r_, BaseException):
+            raise r_
+        out += r_
+    return out
+
+
 def flush(run, drv, pend):
-    out = drv.run()
+    out = prun(drv)
     for what, g, case, i, impl in pend:
         o = out[i]
         if what == "cartesian":
             rows, xs, ys = impl
             if o.startswith("E"):
-                if rows != "E":
+                # the model raises on a gap (the code as it is); NaN at the gaps was judged by the oracle
+                if rows != "E" and not any(v is None for row in rows for v in row):
                     run.mismatch(dict(case, op="c17_cartesian"), str(rows)[:200], o)
                 continue
             mx, my, mr = o.split("|")
@@ -1079,6 +1274,18 @@ def flush(run, drv, pend):
             model = [] if o == "-" else o.split(",")
             if sorted(model) != sorted(impl):
                 run.mismatch(dict(case, op="c17_refine"), impl[:60], model[:60])
+        elif what == "selfcount":
+            # per leaf `key:num:sc`; cell order is not part of the property
+            rows = [] if o == "-" else [t.split(":") for t in o.split(",")]
+            if o in ("bad-op", "inconsistent") or any(len(r_) != 3 for r_ in rows):
+                run.mismatch(dict(case, op="c17_selfcount"), str(impl)[:200], o[:200])
+                continue
+            mnum = {r_[0]: int(r_[1]) for r_ in rows}
+            msc = {r_[0]: int(r_[2]) for r_ in rows}
+            if mnum != impl or msc != impl:
+                d = [k for k in sorted(set(mnum) | set(impl)) if mnum.get(k) != impl.get(k) or msc.get(k) != impl.get(k)][:5]
+                run.mismatch(dict(case, op="c17_selfcount", first_diff=d), str([(k, impl.get(k)) for k in d]),
+                             str([(k, mnum.get(k), msc.get(k)) for k in d]))
         elif what in ("locate", "getindex"):
             model = [] if o == "-" else [None if t == "n" else int(t) for t in o.split(",")]
             if model != impl:
@@ -1304,8 +1511,15 @@ def run_grid(run, drv, pend, g, rng, budget, partition_expected, prefix_free=Tru
 
 
 def run(run, rng, tier):
+    import time
     drv, pend = Driver(), []
     thorough = tier == "thorough"
+    t0 = [time.time()]
+    sect = run.extra.setdefault("section_s", {})
+
+    def lap(name):
+        sect[name] = round(time.time() - t0[0], 1)
+        t0[0] = time.time()
     CL = 2e7 if thorough else 3e6     # size limit (lattice points x cells) of the Cartesian-view check
     # corpus first
     cdir = os.path.join(os.path.dirname(os.path.dirname(os.path.abspath(__file__))), "corpus", "C17")
@@ -1314,6 +1528,7 @@ def run(run, rng, tier):
         for f in sorted(os.listdir(cdir)):
             if f.endswith(".json"):
                 replay(run, json.load(open(os.path.join(cdir, f))), _drv=(drv, pend))
+    lap("corpus")
     # 1. single resolution, all tiles
     for z in range(1, 9 if thorough else 8):
         g = _try_build(run, "single", dict(zoom=z, mags=True) if z % 3 == 2 else dict(zoom=z))
@@ -1328,6 +1543,7 @@ def run(run, rng, tier):
         run_grid(run, drv, pend, g, rng, budget, True, cart_limit=CL)
     flush(run, drv, pend)
     drv, pend = Driver(), []
+    lap("single-resolution")
     # 2. catalog-driven refinement
     combos = [(k, t, z) for k in ("uniform", "clustered", "boundary") for t in (0, 1, 5, 50) for z in range(1, 10)]
     if not thorough:
@@ -1348,12 +1564,14 @@ def run(run, rng, tier):
             continue
         run.count("grid-catalog-" + kind)
         check_refinement(run, drv, pend, g)
+        guarded(run, g, "selfgrid", check_selfgrid, run, drv, pend, g)
         run_grid(run, drv, pend, g, rng, 500 if thorough else 120, True, cart_limit=CL)
         # the events themselves as queries: each is located in the leaf that counted it
         if ev:
             check_queries(run, drv, pend, g, ev[:64], True, True, "events")
     flush(run, drv, pend)
     drv, pend = Driver(), []
+    lap("catalog-refinement")
     # 3. random key sets through from_quadkeys
     for i in range(200 if thorough else 16):
         nested = i % 5 == 4
@@ -1368,11 +1586,14 @@ def run(run, rng, tier):
         sk = sorted(set(keys))
         pf = len(set(keys)) == len(keys) and not any(sk[j + 1].startswith(sk[j]) for j in range(len(sk) - 1))
         run_grid(run, drv, pend, g, rng, 300 if thorough else 150, False, prefix_free=pf, cart_limit=CL)
+    lap("key-sets")
     # 3a. more than 2^16 cells
     for _ in range(3 if thorough else 1):
         check_big(run, drv, pend, rng)
+    lap("big")
     # 3b. geographical_area_from_bounds on arbitrary bounds
     check_geoarea(run, drv, pend, rng, 4000 if thorough else 400)
+    lap("geoarea")
     # 4. the shipped California grid
     try:
         g = _build("california", {})
@@ -1384,6 +1605,7 @@ def run(run, rng, tier):
         run.extra["california_cells"] = len(g.keys)
         run_grid(run, drv, pend, g, rng, 3000 if thorough else 200, False, cart_limit=CL)
     flush(run, drv, pend)
+    lap("california")
 
 
 def replay(run, payload, _drv=None):
@@ -1424,6 +1646,7 @@ def replay(run, payload, _drv=None):
         return
     if case["kind"] == "catalog":
         check_refinement(run, drv, pend, g)
+        check_selfgrid(run, drv, pend, g)
     pts = []
     if "point" in case:
         pts.append(tuple(float.fromhex(v) for v in case["point"]))
